@@ -82,8 +82,6 @@ func (registry *AddressesRegistry) Synchronize(_ int64) {
 			registry.removedAddresses = append(registry.removedAddresses, address)
 		}
 	}
-	registry.temporaryMutex.Lock()
-	defer registry.temporaryMutex.Unlock()
 }
 
 func (registry *AddressesRegistry) Update(addedAddresses []string, removedAddresses []string) {
